@@ -40,6 +40,7 @@ CONSTANTS Kinds,          \* subset of {"tdpos", "xpoa", "single"} explored
           InitMs, InitRems,   \* TDPoS init timestamp = InitMs ms + a remainder (ns) from InitRems
           NTerms,         \* the clock covers this many terms
           ChainPeriods,   \* validator-set scenarios (chains that record validator sets) are explored for these periods,
+          ChainTermInts,  \* these term intervals (TDPoS),
           Starts,         \* these start heights of the consensus instance ({} = no scenarios),
           NodeAts,        \* and the verifying node constructed on the genesis block ("genesis") / on the whole chain ("tip")
           KeepHist,       \* TRUE: record the history (generation, trace validation); FALSE: model checking
@@ -127,9 +128,13 @@ TdposVS(c, ts, dv) ==
             IF dv /\ KF_TdposTermSetOffset THEN TopKAt(c, f) ELSE TopKAt(c, f - 1)
        ELSE TopKAt(c, TipH(c))
 (* ... then wantProposers[pos] must be the block's proposer                                          *)
-TdposClass(c, v, ts, dv) ==
-  LET s == TdposSched(c, ts, dv) IN
-  IF ~TdposValid(c, s) THEN "rej" ELSE IF TdposVS(c, ts, dv)[s.pos + 1] = v THEN "ok" ELSE "rej"
+(* the producer entitled at an instant (-1: nobody) *)
+TdposOwner(c, ts, dv) ==
+  LET s == TdposSched(c, ts, dv) IN IF TdposValid(c, s) THEN TdposVS(c, ts, dv)[s.pos + 1] ELSE -1
+TdposClass(c, v, ts, dv) == IF TdposOwner(c, ts, dv) = v THEN "ok" ELSE "rej"
+(* the classes of the candidates 0..u+1 at one instant (TdposClass with the owner evaluated once) *)
+TdposAcc(c, ts, dv) ==
+  CHOOSE a \in {[i \in 1..(c.u + 2) |-> IF o = i - 1 THEN "ok" ELSE "rej"] : o \in {TdposOwner(c, ts, dv)}} : TRUE
 
 -----------------------------------------------------------------------------
 (* XPoA: the validator set in force for a candidate block of height c.hgt                           *)
@@ -259,7 +264,7 @@ TdposChain(c, st, sh) ==
   {[c EXCEPT !.u = c.n + 2, !.start = st, !.rec = TRec(c.n, st, sh[1] + sh[2]), !.bts = TBts(c, sh[1], sh[2]),
              !.hgt = sh[1] + sh[2] + 1, !.nodeAt = na, !.sid = 10 * sh[1] + sh[2]] : na \in NodeHeights(sh[1] + sh[2])}
 TdposChainBox == UNION {UNION {TdposChain(c, st, sh) : sh \in TShapes(c, st)} :
-                          c \in {x \in TdposBox : x.period \in ChainPeriods /\ x.period >= 2}, st \in Starts}
+                          c \in {x \in TdposBox : x.period \in ChainPeriods /\ x.period >= 2 /\ x.termInt \in ChainTermInts}, st \in Starts}
 
 Box == (IF "tdpos" \in Kinds THEN TdposBox \cup TdposChainBox ELSE {})
        \cup (IF "xpoa" \in Kinds THEN XpoaBox \cup XpoaChainBox ELSE {})
@@ -269,8 +274,7 @@ Timed(c) == c.kind \in {"tdpos", "xpoa"}
 SchedW(c, ts, dv) == IF c.kind = "tdpos" THEN TdposSched(c, ts, dv) ELSE XpoaSched(c, ts, dv)
 Sched(c, ts) == SchedW(c, ts, FALSE)
 Valid(c, s)  == IF c.kind = "tdpos" THEN TdposValid(c, s) ELSE XpoaValid(c, s) /\ s.pos >= 0
-ClassW(c, v, ts, dv) == IF c.kind = "tdpos" THEN TdposClass(c, v, ts, dv) ELSE XpoaClass(c, v, ts, dv)
-Class(c, v, ts) == ClassW(c, v, ts, FALSE)
+Class(c, v, ts) == IF c.kind = "tdpos" THEN TdposClass(c, v, ts, FALSE) ELSE XpoaClass(c, v, ts, FALSE)
 (* the validator set in force for a candidate block of height c.hgt carrying timestamp ts *)
 VSW(c, ts, dv) == IF c.kind = "tdpos" THEN TdposVS(c, ts, dv) ELSE XpoaVS(c)
 VS(c, ts) == VSW(c, ts, FALSE)
@@ -301,11 +305,13 @@ NextSample(c, ts) ==
 (* candidate block of every proposer carrying this timestamp ("nc": not compared, Silent)         *)
 NotCompared == <<-1, -1, -1>>
 Norm(c, s, ts) == IF ts >= Origin(c) /\ ~Silent(c, ts) /\ Valid(c, s) THEN Key(s) ELSE NotCompared
-ObsAtW(c, ts, dv) == [sched |-> Norm(c, SchedW(c, ts, dv), ts),
-                      acc |-> [i \in 1..(c.u + 2) |-> IF Silent(c, ts) THEN "nc" ELSE ClassW(c, i - 1, ts, dv)]]
+ObsAtW(c, ts, dv) ==
+  IF Silent(c, ts) THEN [sched |-> NotCompared, acc |-> [i \in 1..(c.u + 2) |-> "nc"]]
+  ELSE [sched |-> Norm(c, SchedW(c, ts, dv), ts),
+        acc |-> IF c.kind = "tdpos" THEN TdposAcc(c, ts, dv) ELSE [i \in 1..(c.u + 2) |-> XpoaClass(c, i - 1, ts, dv)]]
 ObsAt(c, ts) == ObsAtW(c, ts, FALSE)
-(* nv: the size of the set in force (the length the driver passes to the exported xpoa minerScheduling) *)
-AtEvent(c, ts) == [op |-> "at", ts |-> ts, nv |-> Len(VS(c, ts)), sched |-> ObsAt(c, ts).sched, acc |-> ObsAt(c, ts).acc]
+(* vs: the set in force (its size is the length the driver passes to the exported xpoa minerScheduling) *)
+AtEvent(c, ts) == [op |-> "at", ts |-> ts, vs |-> Tup(VS(c, ts)), sched |-> ObsAt(c, ts).sched, acc |-> ObsAt(c, ts).acc]
 CfgEvent(c) == [op |-> "cfg", cfg |-> c]
 Log(e) == hist' = IF KeepHist THEN Append(hist, e) ELSE hist
 
@@ -428,16 +434,21 @@ TermPeriodic == (Timed(cfg) /\ now >= Origin(cfg) /\ NV(cfg) > 0) =>
 (* in every term the clock visits one validator set is in force, every member of it owns exactly    *)
 (* block_num slots - those of its position in the set - and nobody else owns any                   *)
 WalkMs == (StartNs(cfg) \div Ms + 2)..(EndNs(cfg) \div Ms)
-TermMs(t) == {m \in WalkMs : LET s == Sched(cfg, m * Ms) IN m * Ms >= Origin(cfg) /\ ~Silent(cfg, m * Ms) /\ Valid(cfg, s) /\ s.term = t}
-SlotsOf(t, v) == {Key(Sched(cfg, m * Ms)) : m \in {x \in TermMs(t) : Class(cfg, v, x * Ms) = "ok"}}
+(* one row per millisecond at which somebody is scheduled: the slot, the set in force, who is accepted *)
+SlotTab == {[key |-> Key(Sched(cfg, m * Ms)), vs |-> VS(cfg, m * Ms), acc |-> {v \in Cands(cfg) : Class(cfg, v, m * Ms) = "ok"}] :
+              m \in {x \in WalkMs : x * Ms >= Origin(cfg) /\ ~Silent(cfg, x * Ms) /\ Valid(cfg, Sched(cfg, x * Ms))}}
 Shares == (Timed(cfg) /\ now = StartNs(cfg) /\ NV(cfg) > 0) =>
-  \A t \in Term0(cfg)..(Term0(cfg) + NTerms - 1) :
-    /\ Cardinality({VS(cfg, m * Ms) : m \in TermMs(t)}) <= 1
-    /\ \A vs \in {VS(cfg, m * Ms) : m \in TermMs(t)} :
-         \A v \in Cands(cfg) :
-            /\ v \in Members(vs) => /\ Cardinality(SlotsOf(t, v)) = IF Regular THEN cfg.blockNum ELSE cfg.blockNum - 1
-                                  /\ \A k \in SlotsOf(t, v) : vs[k[2] + 1] = v
-            /\ v \notin Members(vs) => SlotsOf(t, v) = {}
+  \A tab \in {SlotTab} :
+    \A t \in Term0(cfg)..(Term0(cfg) + NTerms - 1) :
+      \A rows \in {{r \in tab : r.key[1] = t}} :
+        /\ Regular => rows # {}
+        /\ Cardinality({r.vs : r \in rows}) <= 1
+        /\ \A vs \in {r.vs : r \in rows} :
+             \A v \in Cands(cfg) :
+               \A mine \in {{r.key : r \in {x \in rows : v \in x.acc}}} :
+                 /\ v \in Members(vs) => /\ Cardinality(mine) = IF Regular THEN cfg.blockNum ELSE cfg.blockNum - 1
+                                         /\ \A k \in mine : vs[k[2] + 1] = v
+                 /\ v \notin Members(vs) => mine = {}
 (* period = 1 ms (TDPoS): slot 0 of every turn is empty, everything else as above *)
 OneMsPeriod == (V /\ ~Regular) => K[3] >= 1
 
